@@ -63,17 +63,19 @@ def shortcut (n : Net) : Bool :=
   (n.srcs.length == 0 && n.dsts.length == 1) || (n.srcs.length == 1 && n.dsts.length == 1) ||
   (n.srcs.length == 1 && n.dsts.length == 0)
 
+/-- all results present → the list of them -/
+def allSome {α} : List (Option α) → Option (List α)
+  | [] => some []
+  | none :: _ => none
+  | some x :: xs => (allSome xs).map (x :: ·)
+
 /-- `adaptive_link_wrap`: `none` = SubnetOversizeException -/
 def plan (a : ACfg) (B : Nat) : Nat → Nat → Net → Option (List Final)
   | 0, _, _ => none                      -- fuel exhausted (unreachable when fuel ≥ #reductions)
   | fuel + 1, k, n =>
     if shortcut n || n.srcs.length ≤ a.maxSizeA then some [{ net := n, k := k }]
     else if atStop a k then none
-    else
-      (split a B (k + 1) n).foldl (fun acc sub =>
-        match acc, plan a B fuel (k + 1) sub with
-        | some fs, some gs => some (fs ++ gs)
-        | _, _ => none) (some [])
+    else (allSome ((split a B (k + 1) n).map (plan a B fuel (k + 1)))).map List.flatten
 
 /-- scaled candidate lists of a final group (null candidate appended) -/
 def finalSrcs (a : ACfg) (B : Nat) (f : Final) : List Src :=
